@@ -356,6 +356,30 @@ func checkC20(c *Check) {
 					"the file reader stores a path derived from (not equal to) the configured one: a rotation that re-targets the configured path (symlink swap) is never seen")
 			}
 		}
+		// … and every Read goes to the file: the bytes it returns are those of an os.ReadFile made by this very call, not a
+		// copy kept in the reader and revalidated by size/mtime (a rotation that preserves both would never be seen)
+		if rd := P.Func(pkgInt, "(*FileReader).Read"); c.Anchor("C20.R5", "FileReader.Read", rd != nil) {
+			okRead, whyRead := true, ""
+			nRet := 0
+			for _, r := range returnsOf(rd) {
+				if len(r.Results) != 2 {
+					continue
+				}
+				nRet++
+				for _, l := range LeavesInl(r.Results[0], leafOpts{noConcat: true}, 2, func(f *ssa.Function) bool { return !isOwnPath(pkgPathOf(f)) }) {
+					l = resolveCell(stripConv(l))
+					if isNilConst(l) {
+						continue
+					}
+					if rc, idx, isC := asCall(l); isC && idx == 0 && isOwnPath(pkgPathOf(rc.Parent())) && isCallToAny(rc, "os.ReadFile", "io.ReadAll", "io/ioutil.ReadFile", "io/ioutil.ReadAll") {
+						continue
+					}
+					okRead, whyRead = false, descDepth(l, 3)
+				}
+			}
+			c.Obl(okRead && nRet >= 1, "C20.R5", "reader-reads-the-file-every-time", P.Pos(rd.Pos()), "FileReader.Read returns the bytes of an os.ReadFile made by this call",
+				"FileReader.Read can return "+whyRead+" instead of the file's current content: a CA rotation the shortcut does not notice never reaches the TLS configuration")
+		}
 		c.Obl(nPath >= 1, "C20.R5", "reader-path-field", P.Pos(nfr.Pos()), "the reader's path field is set by the constructor", "the file reader's path field is not set in NewFileReader (anchor lost)")
 	}
 	c.Obl(okID, "C20.R4", "id-is-hash-of-settings", P.Pos(load.Pos()), "pool id = encodeConfig(settings).hash()", "the pool id is not the hash of the encoded settings of the requested configuration")
@@ -727,5 +751,76 @@ func transportIsOwn(c *Check, rule string) {
 			}
 		}
 	}
+	// … and the transport an http.Client of own code is given is such a transport of this activation (possibly wrapped
+	// by an own RoundTripper built here): a transport looked up in a cache carries the proxy and TLS settings of
+	// whichever handler created it first
+	nClient := 0
+	for _, fn := range P.Funcs {
+		if !isOwnPath(pkgPathOf(fn)) {
+			continue
+		}
+		for _, b := range fn.Blocks {
+			for _, ins := range b.Instrs {
+				st, ok := ins.(*ssa.Store)
+				if !ok {
+					continue
+				}
+				fa, isF := st.Addr.(*ssa.FieldAddr)
+				if !isF || typeID(derefType(fa.X.Type())) != "net/http.Client" {
+					continue
+				}
+				if f := fieldOf(fa.X.Type(), fa.Field); f == nil || f.Name() != "Transport" {
+					continue
+				}
+				nClient++
+				bad := ""
+				seen := map[ssa.Value]bool{}
+				var walk func(v ssa.Value, depth int)
+				walk = func(v ssa.Value, depth int) {
+					for _, l := range Leaves(v, leafOpts{noConcat: true}) {
+						l = resolveCell(stripConv(l))
+						if seen[l] || depth > 3 {
+							continue
+						}
+						seen[l] = true
+						if cl, _, isC := asCall(l); isC && cl.Parent() == fn && isCallTo(cl, "net/http.Transport.Clone") {
+							continue
+						}
+						if al, isA := l.(*ssa.Alloc); isA && al.Parent() == fn {
+							if typeID(derefType(al.Type())) == "net/http.Transport" {
+								continue
+							}
+							// an own wrapper built here: follow what it delegates to
+							followed := false
+							if refs := al.Referrers(); refs != nil {
+								for _, r := range *refs {
+									wfa, isWF := r.(*ssa.FieldAddr)
+									if !isWF {
+										continue
+									}
+									ft := typeID(derefType(wfa.Type()))
+									if ft != "net/http.RoundTripper" && ft != "*net/http.Transport" && ft != "net/http.Transport" {
+										continue
+									}
+									for _, ws := range storesTo(wfa) {
+										followed = true
+										walk(ws.Val, depth+1)
+									}
+								}
+							}
+							if followed {
+								continue
+							}
+						}
+						bad = descDepth(l, 3)
+					}
+				}
+				walk(st.Val, 0)
+				c.Obl(bad == "", rule, "client-transport-is-own/"+fnKey(fn), P.Pos(st.Pos()), "the client's transport is a transport cloned/created in this call",
+					"the client's transport can be "+bad+", not a transport created in this call: proxy and TLS settings of the handler that created it first are used for this filter's IdP requests")
+			}
+		}
+	}
+	c.Obl(nClient >= 1, rule, "client-transport-writes", "-", fmt.Sprintf("%d http.Client.Transport assignments", nClient), "no assignment of http.Client.Transport found (anchor lost)")
 	c.Obl(n >= 1, rule, "transport-field-writes", "-", fmt.Sprintf("%d writes to http.Transport fields, each on an own transport", n), "no write to an http.Transport field found (anchor lost)")
 }
